@@ -53,7 +53,9 @@ pub fn check(case: &C12Case, st: &mut Stats) -> Verdict {
     st.nontrivial();
     let want_hidden = tree.hidden_paths();
     let mut results = vec![];
-    for (what, text, decoys) in [("decoys on", &t_on, true), ("decoys off", &t_off, false)] {
+    // decoys off first: its clause (every digest matches) is C12's own and must be judged even when
+    // the structure is otherwise off (which voids the rest of the case)
+    for (what, text, decoys) in [("decoys off", &t_off, false), ("decoys on", &t_on, true)] {
         let fail = |sig: &str, m: String| Failure::new(format!("decoy:{}", sig), format!("[{}] {}\n  issued: {}", what, m, sut::clip(text, 4000)));
         let parts = split(text, base.fmt).map_err(|e| fail("unparseable", e))?;
         let jwt = decode_jwt(&parts.jwt).map_err(|e| fail("unparseable", e))?;
